@@ -12,11 +12,11 @@ git -C /repo worktree add -q --detach $WT HEAD || exit 2
 res="{}"
 cd $WT
 cp "$DIR/$DEMO" "$DEST/" || { echo "cannot copy demo"; }
-without=$(go test -vet=off -count=1 -run "$RUN" ./$DEST/ 2>&1 | tail -3)
+without=$(go test ${RACE:+-race} -vet=off -count=1 -run "$RUN" ./$DEST/ 2>&1 | tail -3)
 echo "$without" | grep -q "^ok" && W=pass || W=FAIL
 git apply "$DIR/patch.diff" || { echo "PATCH DOES NOT APPLY"; git -C /repo worktree remove --force $WT; exit 3; }
 go build ./... 2>&1 | tail -3; B=$?
-with=$(go test -vet=off -count=1 -run "$RUN" ./$DEST/ 2>&1 | tail -5)
+with=$(go test ${RACE:+-race} -vet=off -count=1 -run "$RUN" ./$DEST/ 2>&1 | tail -5)
 echo "$with" | grep -q "FAIL" && X=fail || X=PASS
 rm -f "$DEST/$DEMO"
 base=$(go test -vet=off -count=1 ./... 2>&1 | grep -v "no test files" | grep -vc "^ok")
